@@ -139,6 +139,14 @@ def shapes(tier):
                         text = f"M DEFINITIONS AUTOMATIC TAGS ::= BEGIN R ::= SEQUENCE {{ z BOOLEAN }} T ::= {t.text()} END"
                         sig = f"C02 {cont} n={n} pos={p} member[{label}] {opt}"
                         out.append((sig, text, {'top': t}))
+    # DEFAULT components of types whose ASN.1 name and Rust name snake-case differently (hyphen before a digit / after a
+    # capital): annotation, function and impl Default must agree on the function name
+    for asn, rust in (('Type-1', 'Type1'), ('PDU-Header', 'PDUHeader'), ('E-RABItem', 'ERABItem'), ('My-type', 'MyType'), ('A1-b2', 'A1B2')):
+        for cont in ('seq', 'set'):
+            for alld in (False, True):
+                members = [Mem('ack', P('BOOLEAN'), 'default', 'TRUE'), Mem('n1', P('INTEGER'), 'default' if alld else 'req', '5' if alld else None)]
+                t = Ty(cont, members=members)
+                out.append((f"C02 {cont} named {asn} with DEFAULT components{' only' if alld else ''}", f"M DEFINITIONS AUTOMATIC TAGS ::= BEGIN {asn} ::= {t.text()} END", {'top': t, 'defs': [(rust, t)]}))
     # reference cycles over several type assignments (mutual recursion), optionally through anonymous nested types
     conts = ('seq', 'set', 'choice')
 
@@ -213,6 +221,19 @@ class Matcher:
     def __init__(self, items):
         self.items = [it for it in tokproj.find_items(items) if it.kind in ('struct', 'enum')]
         self.fns = {it.name for it in tokproj.find_items(items, 'fn')}
+        # default functions called by `impl Default for X` blocks
+        self.default_calls = []
+        def idents(ts):
+            for t in ts.toks:
+                if isinstance(t, TIdent):
+                    yield idname(t)
+                elif hasattr(t, 'ts'):
+                    yield from idents(t.ts)
+        for im in tokproj.find_items(items, 'impl'):
+            if im.trait and any(isinstance(t, TIdent) and idname(t) == 'Default' for t in im.trait):
+                for f in im.items:
+                    if f.kind == 'fn':
+                        self.default_calls += [(im.name, i) for i in idents(f.body) if i.endswith('_default')]
         self.by_name = {}
         self.dups = []
         for it in self.items:
@@ -381,6 +402,9 @@ class Matcher:
     def finish(self, expect_items):
         for d in self.dups:
             self.fail('duplicate-item', f"item {d} generated twice")
+        for owner, fn in self.default_calls:
+            if fn not in self.fns:
+                self.fail('default-fn', f"impl Default for {owner} calls {fn}(), which is not generated")
         extra = [it.name for it in self.items if it.name not in self.used and it.name not in expect_items]
         if extra:
             self.fail('extra-item', f"items {extra} correspond to nothing in the source")
